@@ -47,6 +47,7 @@ struct W {
     steps: Vec<Value>, pend: Vec<Pend>, next_id: u64, next_tm: u8, msg: u64, toks: Vec<Tok>, paused: bool, proposed: Option<(VMAddress, VMAddress)>, last_in: Option<(Vec<u8>, Vec<u8>, Vec<u8>, Vec<u8>)>,
 }
 
+impl Tok { fn clone_lite(&self) -> (VMAddress, Vec<u8>, Vec<u8>) { (self.deployer.clone(), self.salt.clone(), self.id.clone()) } }
 impl W {
     fn prep_tm_addr(&mut self) -> VMAddress {
         let a = sc_addr(0x40 + self.next_tm);
@@ -111,7 +112,7 @@ impl W {
 pub fn run(seed: u64, ntraces: usize) {
     let mut r = Rng::new(seed ^ 0x175);
     for t in 0..ntraces {
-        let d = t % 17;      // which directed schedule opens the trace
+        let d = t % 18;      // which directed schedule opens the trace
         let mut w = World::new();
         let owner = user_addr(1); let operator = user_addr(2); let relayer = user_addr(3);
         let users = vec![user_addr(4), user_addr(5), user_addr(6)]; let dest = user_addr(7);
@@ -200,7 +201,7 @@ pub fn run(seed: u64, ntraces: usize) {
                 script.extend([22u64]);
             }
         }
-        if d == 2 || d == 3 || d == 7 || d == 4 {
+        if d == 2 || d == 3 || d == 7 || d == 4 || d == 17 {
             // local deployment driven step by step: (2) two issuances in flight, (3) the service named as minter, (7) steps under pause, (4) no minter: the mint step repeated
             let u = g.users[2].clone(); let salt = r.bytes(32); let supply = 1000u64;
             let minter = if d == 3 { g.its.to_vec() } else if d == 4 { vec![0u8; 32] } else { g.users[0].to_vec() };
@@ -209,12 +210,13 @@ pub fn run(seed: u64, ntraces: usize) {
                     json!({"salt": hx(&salt), "name": hx(b"MyToken"), "symbol": hx(b"MTK"), "decimals": 18, "supply": supply.to_string(), "minter": hx(&minter)})) };
             let (ok, rets, dep) = dt(&mut g, 0);
             if ok { if let Some(tm) = dep { g.toks.push(Tok { id: rets.last().unwrap().clone(), kind: "native", tm, token: None, salt: salt.clone(), deployer: u.clone(), supply, minter: minter.clone(), custody: 0 }); } }
-            dt(&mut g, ISSUE_COST);
-            if d == 2 { dt(&mut g, ISSUE_COST); }                 // a second issuance before the first callback
+            dt(&mut g, if d == 4 { ISSUE_COST + ISSUE_COST / 2 } else { ISSUE_COST });      // (4): the issuing step is overpaid: everything is forwarded to the manager
+            if d == 2 || d == 17 { dt(&mut g, ISSUE_COST); }                 // a second issuance before the first callback
             script.extend([23u64]);                                    // first issuance succeeds
             if d == 2 || d == 4 { script.push(42); }                   // between issuance and the mint step the service is the manager's minter
             if d == 7 { script.extend([10u64, 2, 15, 10]); }       // pause, try step 3 and a remote deployment, unpause
             else if d == 3 { script.extend([47u64, 46, 23, 46, 3]); }  // steps called with different arguments: (1000, minter) then (0, no minter)
+            else if d == 17 { script.extend([27u64, 45, 3, 3, 26]); }     // (17): the second issuance FAILS after the first was recorded: the recorded token stays, a retry is refused
             else { script.extend([3u64, 23, 3, 3]); }
             if d == 2 { script.extend([40u64, 50, 43, 41, 40, 19, 41, 40, 41]); script.extend([40u64, 51, 67, 53, 69, 41]); }   // ... then: an approval is replaced while its chain is no longer trusted (refused), the chain is trusted again, the replacement is not usable, the original is   // the minter approves a remote deployment, hands the role on, then the stale approval is used                   // step 3, second issuance callback, step 3 again (twice)
         }
@@ -276,7 +278,7 @@ pub fn run(seed: u64, ntraces: usize) {
                         g.its_tx("deployRemoteCanonical", &u2, "deployRemoteCanonicalInterchainToken", vec![tk.clone(), vec![]], gasv, &[], json!({"token": hx(&tk), "dchain": ""})); }
                     // (b) the trusted address of the source chain is removed / replaced while a transfer with data is in flight and restored afterwards:
                     //     the delivered message must end up executed and a second execute must be refused
-                    script.extend([22u64, 56, 1700, 51, 25, 24, 53, 197, 1700, 25, 54, 24, 53, 197, 1702, 52, 25, 24, 55, 197, 70, 57]);
+                    script.extend([22u64, 56, 1700, 51, 25, 24, 53, 197, 1700, 25, 54, 24, 53, 197, 1702, 52, 25, 24, 55, 197, 70, 26, 26, 57, 26, 26]);
                 }
                 else {              // d == 13: message-type words outside the known range, direct and hub-wrapped
                     for i in 0..6u64 { script.push(2000 + i); script.push(2100 + i); }
@@ -293,10 +295,10 @@ pub fn run(seed: u64, ntraces: usize) {
             let anyone = r.pick(&g.users).clone();
             let has_pending = !g.pend.is_empty();
             let scripted = !script.is_empty();
-            let a = if !script.is_empty() { script.remove(0) } else if has_pending && r.chance(1, 2) { 20 } else { *r.pick(&[0u64, 1, 2, 3, 3, 3, 4, 4, 4, 5, 5, 5, 6, 6, 6, 7, 7, 7, 7, 8, 9, 10, 11, 12, 12, 13, 14, 14, 15, 16, 17, 18, 19, 19]) };
+            let a = if !script.is_empty() { script.remove(0) } else if has_pending && r.chance(1, 2) { 20 } else { *r.pick(&[0u64, 1, 2, 3, 3, 3, 4, 4, 4, 5, 5, 5, 6, 6, 6, 7, 7, 7, 7, 8, 9, 10, 11, 12, 12, 13, 14, 14, 15, 16, 17, 18, 19, 19, 26, 26]) };
             let a_raw = a; let a = if a == 56 || a == 57 { 0 } else if a == 58 { 1 } else if (59..=61).contains(&a) { 17 } else if a == 198 { 1600 } else { a };
-            let force_fail = a == 21; let force_props_ok = a == 22; let force_issue_ok = a == 23; let force_cb = a == 24; let force_ok = a == 25;
-            let a = if a == 21 || a == 22 || a == 23 || a == 24 || a == 25 { 20 } else { a };
+            let force_fail = a == 21; let force_props_ok = a == 22; let force_issue_ok = a == 23; let force_cb = a == 24; let force_ok = a == 25; let force_issue_fail = a == 27;
+            let a = if a == 21 || a == 22 || a == 23 || a == 24 || a == 25 || a == 27 { 20 } else { a };
             // 1<a><vv>: inbound message kind a (6, 7, 8) in routing variant vv; 20<i> / 21<i>: message-type word i (direct / hub-wrapped); 3<shape><chain> / 35..: outbound transfer / call; 190..192: inbound link / deploy for an already bound token id (direct, hub-wrapped, deploy)
             let mut fvar: Option<u64> = None; let mut fbound: Option<u64> = None;
             let mut ftype: Option<u64> = None; let mut fshape: Option<(u64, u64)> = None;
@@ -540,6 +542,19 @@ pub fn run(seed: u64, ntraces: usize) {
                     let (dchain, ty, dtok, gasv) = if a_raw >= 59 && a_raw <= 61 { ([&b"axelar"[..], b"avalanche", b"ethereum"][(a_raw - 59) as usize].to_vec(), 2u8, b"0xremote-token".to_vec(), 333u64) } else { (dchain, ty, dtok, gasv) };
                     g.its_tx("linkToken", &deployer, "linkToken", vec![salt.clone(), dchain.clone(), dtok.clone(), if ty == 0 { vec![] } else { vec![ty] }, b"params".to_vec()], gasv, &[],
                         json!({"salt": hx(&salt), "dchain": hx(&dchain), "dtoken": hx(&dtok), "ty": ty, "params": hx(b"params")})); }
+                26 => { // read-only queries of the service: the id derivations, the chain-name hash, the manager registered for an id
+                    let known = if !g.toks.is_empty() && r.chance(2, 3) { Some(g.toks[r.below(g.toks.len() as u64) as usize].clone_lite()) } else { None };
+                    let (deployer, salt) = match &known { Some((d, s, _)) if !s.is_empty() => (d.clone(), s.clone()), _ => (anyone.clone(), r.bytes(32)) };
+                    match r.below(5) {
+                        0 => { g.its_tx("view", &anyone, "interchainTokenId", vec![deployer.to_vec(), salt.clone()], 0, &[], json!({"view": "interchainId", "deployer": hx(deployer.as_bytes()), "salt": hx(&salt)})); }
+                        1 => { let token = match r.below(3) { 0 => b"EGLD".to_vec(), 1 => tok2.clone(), _ => tok.clone() };
+                               g.its_tx("view", &anyone, "canonicalInterchainTokenId", vec![token.clone()], 0, &[], json!({"view": "canonicalId", "token": hx(&token)})); }
+                        2 => { g.its_tx("view", &anyone, "linkedTokenId", vec![deployer.to_vec(), salt.clone()], 0, &[], json!({"view": "linkedId", "deployer": hx(deployer.as_bytes()), "salt": hx(&salt)})); }
+                        3 => { g.its_tx("view", &anyone, "chainNameHash", vec![], 0, &[], json!({"view": "chainNameHash"})); }
+                        _ => { let tid = match &known { Some((_, _, id)) => id.clone(), None => r.bytes(32) };
+                               g.its_tx("view", &anyone, "deployedTokenManager", vec![tid.clone()], 0, &[], json!({"view": "deployedTm", "token_id": hx(&tid)})); }
+                    }
+                }
                 18 => { let caller = match r.below(6) { 0 => g.owner.clone(), 1 | 2 => anyone.clone(), _ => g.operator.clone() }; let na = r.pick(&g.users).clone();
                     match r.below(4) {
                         0 | 1 => { let (ok, _, _) = g.its_tx("transferOp", &caller, "transferOperatorship", vec![na.to_vec()], 0, &[], json!({"a": hx(na.as_bytes())})); if ok { g.operator = na; } }
@@ -639,7 +654,7 @@ pub fn run(seed: u64, ntraces: usize) {
                 _ => { // deliver some pending asynchronous step
                     if g.pend.is_empty() { continue; }
                     let mut i = r.below(g.pend.len() as u64) as usize;
-                    if force_issue_ok { if let Some(j) = g.pend.iter().position(|p| matches!(p.kind, PKind::Issue(..))) { i = j; } }
+                    if force_issue_ok || force_issue_fail { if let Some(j) = g.pend.iter().position(|p| matches!(p.kind, PKind::Issue(..))) { i = j; } }
                     if force_props_ok { if let Some(j) = g.pend.iter().position(|p| matches!(p.kind, PKind::Props(..))) { i = j; } }
                     if force_fail || force_ok { if let Some(j) = g.pend.iter().position(|p| matches!(p.kind, PKind::Transfer(_, None))) { i = j; } }
                     if force_cb { if let Some(j) = g.pend.iter().position(|p| matches!(p.kind, PKind::Transfer(_, Some(_)))) { i = j; } }
@@ -687,7 +702,7 @@ pub fn run(seed: u64, ntraces: usize) {
                         PKind::Issue(ac, tm) => {
                             let tm = tm.clone();
                             let tm_egld = g.w.r.blockchain_mock.state.accounts.get(&tm).unwrap().egld_balance.clone();
-                            let mut ok = force_issue_ok || r.chance(2, 3); if tm_egld < bn(ISSUE_COST) { ok = false; }
+                            let mut ok = force_issue_ok || (!force_issue_fail && r.chance(2, 3)); if tm_egld < bn(ISSUE_COST) { ok = false; }
                             let newtok = format!("MTK-{:06x}", r.below(0xffffff)).into_bytes();
                             let forged = if ok { TxResult { result_values: vec![newtok.clone()], ..TxResult::empty() } } else { TxResult { result_status: 4, result_message: "issue failed".to_string(), ..TxResult::empty() } };
                             let cb = async_callback_tx_input(ac, &forged, &g.w.r.blockchain_mock.vm.builtin_functions);
